@@ -11,6 +11,9 @@ def build(P):
     P.verify(E.SE + "StateEngine.start_execution", R.start_execution_contract(), tags=("C09",))
     P.verify(E.SE + "StateEngine.end_execution", R.end_execution_contract(), tags=("C09",))
     P.verify(E.SE + "StateEngine.change_state", tags=("C09",))
+    from contracts import handlers as _H
+    _c = _H.handle_terminal_state_contract()
+    P.verify(_c.key, _c, tags=("C09",), timeout=30)
     from contracts import api as A
     for w in ("asyncio", "blocking"):
         c = A.get_execution_history_api(w)
